@@ -216,7 +216,8 @@ func init() {
 		explain: "The 'iff over all strings and windows' is decided structurally on ValidateHOTP's SSA: R03.1 the window size is exactly within [0,10] at the loop (interval from the dominating gate; not narrower), converted losslessly; R03.2 exactly one loop encloses the single per-step validation, counter i from -s to +s inclusive, step one; " +
 			"R03.3 step i validates counter c+i (c-(-i) for i<0) centred on the caller's counter; R03.4 a step below zero is skipped exactly when c < uint64(-i), compared unsigned; R03.5 acceptance only under that iteration's verdict, every return on the path is a well-formed verdict; " +
 			"R03.6 with parameters bound through the closure, the constant-time comparison is between the whole submitted string and the whole string returned by the same derivation generation uses, called with (DecodeSecret(secret), the loop's counter, param.Digits, param.Algorithm), after len(code) is compared with those same digits, accepted on == 1; R03.7 nil parameters resolve to DefaultHOTPParam = {6, SHA-1, window 2}. " +
-			"Together with C01 (the derivation is the RFC value) this is the membership oracle. Not decided: that codes of different counters differ (not claimed by the property).",
+			"Together with C01 (the derivation is the RFC value) this is the membership oracle. Not decided: that codes of different counters differ (not claimed by the property). " +
+			"Acceptance additionally requires that the derivation's error was found nil (a failed derivation yields an empty string that an empty code would match).",
 		quick:    []Config{CfgNative, CfgWasm},
 		thorough: []Config{CfgNative, CfgWasm, Cfg386},
 		run:      runC03,
